@@ -38,8 +38,8 @@ TUPLETS = [
     (5, F(1, 5), "16th", 5, 4),
     (6, F(1, 6), "16th", 6, 4),
 ]
-PLAIN = [F(4), F(3), F(2), F(3, 2), F(1), F(3, 4), F(1, 2), F(1, 4), F(1, 8), F(3, 8)]
-PLAIN_W = [1, 1, 3, 2, 6, 1, 5, 3, 1, 1]
+PLAIN = [F(4), F(3), F(2), F(3, 2), F(1), F(3, 4), F(1, 2), F(1, 4), F(1, 8), F(3, 8), F(7, 2), F(7, 4)]
+PLAIN_W = [1, 1, 3, 2, 6, 1, 5, 3, 1, 1, 0.5, 0.5]
 
 TIMESIGS = [(4, 4), (3, 4), (2, 4), (6, 8), (2, 2), (5, 8), (3, 8), (9, 8), (7, 8), (5, 4), (1, 4), (3, 2), (12, 8), (3, 16)]
 TIMESIGS_W = [6, 4, 3, 3, 1, 1, 1, 1, 1, 1, 0.4, 0.4, 0.4, 0.4]
